@@ -16,15 +16,22 @@ class Draw:
         self.fn, self.args, self.menu, self.chosen = fn, args, menu, 0
 
 
+class DrawCap(RuntimeError):
+    """more draws than the harness allows in one execution (a sampler that never accepts would loop for ever)"""
+
+
 class Chooser:
     """menu_fn(fn_name, args) -> list of admissible answers (first = default)."""
 
-    def __init__(self, prefix=(), menu_fn=None):
+    def __init__(self, prefix=(), menu_fn=None, cap=None):
         self.prefix = list(prefix)
         self.draws = []
         self.menu_fn = menu_fn or default_menu
+        self.cap = cap
 
     def _answer(self, fn, args):
+        if self.cap is not None and len(self.draws) >= self.cap:
+            raise DrawCap(f"more than {self.cap} draws in one execution")
         menu = self.menu_fn(fn, args)
         d = Draw(fn, args, menu)
         k = len(self.draws)
